@@ -12,6 +12,7 @@ import (
 	"errors"
 	"fmt"
 	"io"
+	"net/http"
 	"net/http/httptest"
 	"net/url"
 	"regexp"
@@ -287,6 +288,10 @@ func opW(t []string) string {
 		if enc == "o" {
 			header = "identity"
 		}
+	case "s": // through a real HTTP server, Content-Length framing
+		body = bytes.NewReader(data)
+	case "k": // through a real HTTP server, chunked transfer encoding
+		body = struct{ io.Reader }{bytes.NewReader(data)}
 	case "g", "x":
 		body = bytes.NewReader(gzipBody(data, term))
 		header = map[string]string{"g": "gzip", "x": "x-gzip"}[enc]
@@ -327,15 +332,36 @@ func opW(t []string) string {
 	default:
 		q.Set("precision", prec)
 	}
-	r := httptest.NewRequest("POST", "http://localhost:8086/api/v2/write?"+q.Encode(), body)
-	if header != "" {
-		r.Header.Set("Content-Encoding", header)
-	}
-	if auth {
-		r = r.WithContext(pcontext.SetAuthorizer(r.Context(), authorizer(perm)))
-	}
+	withAuth := http.HandlerFunc(func(rw http.ResponseWriter, r *http.Request) {
+		if auth {
+			r = r.WithContext(pcontext.SetAuthorizer(r.Context(), authorizer(perm)))
+		}
+		handler.ServeHTTP(rw, r)
+	})
 	rec := httptest.NewRecorder()
-	handler.ServeHTTP(rec, r)
+	if enc == "s" || enc == "k" {
+		srv := httptest.NewServer(withAuth)
+		req, err := http.NewRequest("POST", srv.URL+"/api/v2/write?"+q.Encode(), body)
+		if err != nil {
+			srv.Close()
+			return "client-error"
+		}
+		resp, err := srv.Client().Do(req)
+		if err != nil {
+			srv.Close()
+			return "client-error"
+		}
+		rec.Code = resp.StatusCode
+		io.Copy(rec.Body, resp.Body)
+		resp.Body.Close()
+		srv.Close()
+	} else {
+		r := httptest.NewRequest("POST", "http://localhost:8086/api/v2/write?"+q.Encode(), body)
+		if header != "" {
+			r.Header.Set("Content-Encoding", header)
+		}
+		withAuth.ServeHTTP(rec, r)
+	}
 
 	code, named, dropped := "-", "-", "-"
 	if rec.Code >= 300 {
@@ -571,6 +597,9 @@ func genW(r *h.Rand, big bool) string {
 	}
 	if r.Chance(0.02) {
 		enc = h.Pick(r, []string{"h", "e"})
+	}
+	if r.Chance(0.04) { // a real HTTP round trip: clean bodies only
+		enc, term, closeErr = h.Pick(r, []string{"s", "k"}), "eof", "0"
 	}
 	auth, prec, bgiven, org, bisid, byid, byname, perm := "1", h.Pick(r, []string{"-", "ns", "us", "ms", "s"}), "1", "-", h.B(r.Bool()), "-", "-", "a"
 	// about a fifth of the requests do not reach the body
